@@ -5,6 +5,7 @@ from ..core.loader import AnalysisError, own_nodes, norm, enclosing_stmt
 from ..core import astq
 from ..core.cfg import guards_of, EXIT
 from . import common as K
+from . import flowalg
 
 EXPLANATION = (
     "Static necessary conditions in atomica/model.py: R02a the outflow of a compartment is rescaled by a factor that is 1/T exactly where the summed "
@@ -22,6 +23,8 @@ def run(ctx):
     ctx.each(r02b, ctx, repo, T)
     ctx.each(r02c, ctx, repo, T)
     ctx.each(r02d, ctx, repo, T)
+    ctx.each(flowalg.accumulator_rule, ctx, repo, "R02e")
+    ctx.each(flowalg.must_store_rule, ctx, repo, "R02f")
 
 
 def _is_one(e):
